@@ -1374,6 +1374,16 @@ func (s *stSess) doSwFlush(w []string, line string, emit func(string, string), f
 		fail("C26-flush", "Flush failed: "+err.Error())
 		return
 	}
+	// every streamed version must read back through the public API before anything else looks
+	// at the tables (an inline value stored with the value-pointer flag makes readers decode its
+	// bytes as a pointer: error, garbage or panic — finding F26, fixed)
+	if tag, msg := s.swProbe(mv); tag != "" {
+		emit(line, "unreadable")
+		fail(tag, msg)
+		mv.close() // the dump hooks would trip over the same entries
+		mv.db = nil
+		return
+	}
 	after := badger.VerifLevels(mv.db)
 	// the new tables, in level order
 	old := s.swOld
@@ -1433,6 +1443,63 @@ func (s *stSess) doSwFlush(w []string, line string, emit func(string, string), f
 			return
 		}
 	}
+}
+
+// swProbe reads every version of every key with an AllVersions iterator and Item.ValueCopy and
+// compares it with what was streamed.
+func (s *stSess) swProbe(mv *mvSess) (tag, msg string) {
+	want := map[string]*pb.KV{}
+	for _, x := range s.swData {
+		want[fmt.Sprintf("%x@%d", x.Key, x.Version)] = x
+	}
+	classify := func(x *pb.KV, what string) (string, string) {
+		m, _ := kvMeta(x)
+		if m&2 != 0 && len(x.Value) < mv.thr {
+			return "F26:streamwriter-inline-keeps-pointer-bit", fmt.Sprintf("KV %s (Meta has the value-pointer bit, value below the threshold %d => stored inline with the flag kept): %s", fmtKV(x), mv.thr, what)
+		}
+		return "C26-read", fmt.Sprintf("KV %s: %s", fmtKV(x), what)
+	}
+	var txn *badger.Txn
+	if mv.managed {
+		txn = mv.db.NewTransactionAt(math.MaxUint64, false)
+	} else {
+		txn = mv.db.NewTransaction(false)
+	}
+	defer func() {
+		if r := recover(); r != nil {
+			// Unclosed iterator at time of Txn.Discard: the iterator below died in a panic
+			tag, msg = "C26-read", fmt.Sprintf("panic while reading back: %v", r)
+		}
+	}()
+	opt := badger.DefaultIteratorOptions
+	opt.AllVersions = true
+	opt.PrefetchValues = false
+	it := txn.NewIterator(opt)
+	for it.Rewind(); it.Valid() && tag == ""; it.Next() {
+		item := it.Item()
+		x := want[fmt.Sprintf("%x@%d", item.Key(), item.Version())]
+		if x == nil {
+			continue
+		}
+		func() {
+			defer func() {
+				if r := recover(); r != nil {
+					tag, msg = classify(x, fmt.Sprintf("Item.ValueCopy panics: %v", r))
+				}
+			}()
+			v, err := item.ValueCopy(nil)
+			switch {
+			case err != nil:
+				tag, msg = classify(x, "Item.ValueCopy fails: "+err.Error())
+			case !bytes.Equal(v, x.Value):
+				tag, msg = classify(x, fmt.Sprintf("reads back as %s", hx(v)))
+			}
+		}()
+	}
+	it.Close()
+	txn.Discard()
+	badger.VerifSyncMarks(mv.db)
+	return
 }
 
 func firstDiff(a, b []string) string {
